@@ -80,6 +80,7 @@ type world struct {
 	hasHls  []bool
 	age     []int          // seconds (of history time) since the last HLS access, for the input distribution only
 	dist    map[string]int // input distribution counters of this history
+	lastWhy string         // which clause decided the last run of an idle task (for the class of a finding)
 }
 
 func newWorld() *world {
@@ -203,16 +204,17 @@ func (w *world) exec(tok string) (obs string) {
 			if st == ts[n].Stream && st.VerifStatus() == media.StreamOK {
 				switch {
 				case st.ConsumerCount() > 0:
-					w.dist["tick-decided-by-attached-consumer"]++
+					w.lastWhy = "tick-decided-by-attached-consumer"
 				case !w.hasHls[i]:
-					w.dist["tick-no-consumer-no-playlist"]++
+					w.lastWhy = "tick-no-consumer-no-playlist"
 				case d == 0:
-					w.dist["tick-no-consumer-period-0"]++
+					w.lastWhy = "tick-no-consumer-period-0"
 				case time.Duration(w.age[i])*time.Second >= d:
-					w.dist["tick-decided-by-old-hls-access"]++
+					w.lastWhy = "tick-decided-by-old-hls-access"
 				default:
-					w.dist["tick-decided-by-recent-hls-access"]++
+					w.lastWhy = "tick-decided-by-recent-hls-access"
 				}
+				w.dist[w.lastWhy]++
 			}
 		}
 		return tickOnce(ts[n], d)
@@ -516,7 +518,7 @@ func genIdleHistory(r *Rng) []string {
 
 // ---- classification of a property failure (implementation ≠ specification) ----
 
-func classify(ops []string, impl, spec []string) (int, string) {
+func classify(ops []string, impl, spec, why []string) (int, string) {
 	for i := range ops {
 		if i >= len(impl) || i >= len(spec) || impl[i] == spec[i] {
 			continue
@@ -525,6 +527,8 @@ func classify(ops []string, impl, spec []string) (int, string) {
 		switch {
 		case impl[i] == "tpanic":
 			return i, "idle-task-panics-without-playlist"
+		case kind == "tick" && impl[i] == "t1" && spec[i] == "t0" && i < len(why) && why[i] == "tick-decided-by-recent-hls-access":
+			return i, "idle-close-despite-recent-hls-access"
 		case kind == "tick" && impl[i] == "t1" && spec[i] == "t0":
 			return i, "idle-close-with-consumers-attached"
 		case kind == "tick":
@@ -747,7 +751,7 @@ func runC05(c *Ctx) {
 				c.Count("not-run-after-a-hanging-operation")
 				continue
 			}
-			impl, stuckAt, dist := runHistory(k.ops)
+			impl, stuckAt, dist, why := runHistory(k.ops)
 			for dk, dv := range dist {
 				c.CountN(dk, dv)
 			}
@@ -797,7 +801,7 @@ func runC05(c *Ctx) {
 				c.Find(Finding{Kind: "corr", Class: "registry-history", Case: lines[i], Impl: strings.Join(impl, ";"), Model: m["model"], Spec: m["spec"],
 					Detail: fmt.Sprintf("first difference at op %d (%s)", d, opAt(k.ops, d))})
 			}
-			if d, class := classify(k.ops, impl, spec); d >= 0 {
+			if d, class := classify(k.ops, impl, spec, why); d >= 0 {
 				c.Find(Finding{Kind: "oracle", Class: class, Case: lines[i], Impl: strings.Join(impl, ";"), Model: m["model"], Spec: m["spec"],
 					Detail: fmt.Sprintf("first difference at op %d (%s): impl=%s spec=%s", d, k.ops[d], impl[d], spec[d])})
 			}
@@ -841,29 +845,32 @@ const opTimeout = 90 * time.Second
 
 // runHistory runs the ops on the real code in one goroutine; stuckAt >= 0: that op never returned
 // (the goroutine is abandoned, the observations so far are returned)
-func runHistory(ops []string) (impl []string, stuckAt int, dist map[string]int) {
+func runHistory(ops []string) (impl []string, stuckAt int, dist map[string]int, why []string) {
 	var mu sync.Mutex
 	obs := make([]string, 0, len(ops))
 	done := make(chan struct{})
 	go func() {
 		defer close(done)
 		w := newWorld()
+		var ws []string
 		for _, o := range ops {
+			w.lastWhy = ""
 			r := w.exec(o)
+			ws = append(ws, w.lastWhy)
 			mu.Lock()
 			obs = append(obs, r)
 			mu.Unlock()
 		}
 		w.done()
 		mu.Lock()
-		dist = w.dist
+		dist, why = w.dist, ws
 		mu.Unlock()
 	}()
 	last, lastChange := -1, time.Now()
 	for {
 		select {
 		case <-done:
-			return obs, -1, dist
+			return obs, -1, dist, why
 		case <-time.After(200 * time.Millisecond):
 		}
 		mu.Lock()
@@ -882,7 +889,7 @@ func runHistory(ops []string) (impl []string, stuckAt int, dist map[string]int) 
 			if at >= len(ops) {
 				at = len(ops) - 1 // the clean-up after the last op hangs
 			}
-			return out, at, nil
+			return out, at, nil, nil
 		}
 	}
 }
